@@ -380,8 +380,26 @@ def run_unit(unit):
     raise KeyError(unit)
 
 
+def public_data_attributes():
+    """Public names of Vector/Table that are neither methods nor properties (plain class attributes): a column with
+    such a name must not be advertised under it either.  Discovered at run time, so a newly added one is covered."""
+    from serif import Vector, Table
+    out = set()
+    for cls in (Vector, Table):
+        for n in dir(cls):
+            if n.startswith("_"):
+                continue
+            a = getattr(cls, n, None)
+            if not callable(a) and not isinstance(a, property):
+                out.add(n)
+    return sorted(out)
+
+
 def check(ctx):
     W = ctx.pick(3, 4)
+    for extra in public_data_attributes():
+        if extra not in ALPHA:
+            ALPHA.append(extra)
     units = []
     for w in range(1, W + 1):
         for first in ALPHA:
